@@ -1,4 +1,3 @@
-//go:debug randseednop=0
 package main
 
 // C18, dynamic part (oracle only, no model): small multi-GPU-capable workloads are run on GPU sets
